@@ -138,7 +138,7 @@ def r2(ctx, prog):
                         cs = f.s(f.strip_casts(cond))
                         while cs and cs['k'] == 'UnaryOperator' and cs.get('op') == '!':
                             cs = f.s(f.strip_casts(cs['ch'][0]))
-                        if o_ in ('>=', '>') and r_.endswith('content_length_') and cs and cs['k'] == 'BinaryOperator':
+                        if o_ == '>=' and r_.endswith('content_length_') and cs and cs['k'] == 'BinaryOperator':      # exactly >=: a body that is just complete is taken
                             other = cs['ch'][0] if (f.field_of(cs['ch'][1]) or '').endswith('content_length_') else cs['ch'][1]
                             if 'data_size' in q.subtree_paths(f, other) and 'pos' in q.subtree_paths(f, other) and q.expr_text(f, other) in ('(data_size-pos)',):
                                 ok, why = True, 'by the body length after the (data_size - pos) >= content_length_ test'
